@@ -65,10 +65,27 @@ Fixpoint cut_trace (sc : schema) (cs : list nat) (s : list byte) (full : list cv
       end
   end.
 
-Definition cut_summary (sc : schema) (cs : list nat) (s : list byte) (k : nat) : cv :=
-  let full := loads_trace sc cs s in
+Definition cut_summary (sc : schema) (cs : list nat) (s : list byte) (full : list cv) (k : nat) : cv :=
   let '(n, ok, rests, err) := cut_trace sc cs (firstn k s) full in
   CL [CZ n; cbool ok; CL rests; cbool err].
 
 Definition all_cuts (sc : schema) (cs : list nat) (s : list byte) (ks : list nat) : cv :=
-  CL (map (cut_summary sc cs s) ks).
+  let full := loads_trace sc cs s in
+  CL (map (cut_summary sc cs s full) ks).
+
+(* ---- what the reader is expected to return: Cls().parse(bytes(m)) for each written message,
+        up to the first one that raises (writer schema scW, reader schema scR and reader
+        classes cs may differ from the writer's: "reader older than writer") ---- *)
+Fixpoint parse_each (scW scR : schema) (cs : list nat) (ms : list obj) : list obj * bool :=
+  match cs, ms with
+  | c :: cs', m :: ms' =>
+      match enc_obj scW m with
+      | Ok bs =>
+          match parse scR c bs with
+          | Ok m' => let '(l, ok) := parse_each scW scR cs' ms' in (m' :: l, ok)
+          | Err _ => ([], false)
+          end
+      | Err _ => ([], false)
+      end
+  | _, _ => ([], true)
+  end.
